@@ -11,25 +11,75 @@ every reachable state with an unfinished thread some thread can take a step — 
 number and placement of writers. -/
 theorem flat_no_deadlock (ps : Progs) (hflat : ∀ p ∈ ps, flat p = true) (s : State) (hr : Reachable ps s) :
     deadlocked ps s = false := by
-  sorry
+  have hI := Inv_reachable ps hflat s hr
+  cases hd : deadlocked ps s with
+  | false => rfl
+  | true =>
+    exfalso
+    simp only [deadlocked, Bool.and_eq_true, List.any_eq_true, List.all_eq_true, List.mem_range] at hd
+    obtain ⟨⟨t, _, hunf⟩, hall⟩ := hd
+    have hun : nextEv ps s t ≠ none := by
+      intro h
+      simp [finished, h] at hunf
+    obtain ⟨u, sched, s', hrun, _, _⟩ := progress ps hflat s hI t hun
+    have hen := enabled_of_run_cons ps s s' u sched hrun
+    have := hall u (lt_of_enabled ps s u hen)
+    simp [hen] at this
+
+/-- non-vacuity: three flat threads, two of them writers, in a reachable state where thread 0 holds a read
+guard and thread 1 is a registered waiting writer -/
+example :
+    let ps : Progs := [[.acqR, .relR, .acqW, .relW], [.acqW, .relW], [.acqR, .relR]]
+    (∀ p ∈ ps, flat p = true) ∧ Reachable ps (step ps (step ps (init ps) 0) 1) ∧
+      step ps (step ps (init ps) 0) 1 = ⟨[1, 0, 0], [1, 0, 0], none, [1]⟩ :=
+  ⟨by decide, .step _ _ (.step _ _ .init (by decide) (by decide)) (by decide) (by decide), by decide⟩
 
 /-- every flat program runs to completion under any fair-enough scheduler: from every reachable state there is a
 schedule that finishes all threads -/
 theorem flat_can_finish (ps : Progs) (hflat : ∀ p ∈ ps, flat p = true) (s : State) (hr : Reachable ps s) :
-    ∃ sched s', run ps s sched = some s' ∧ ∀ t, t < ps.length → finished ps s' t = true := by
-  sorry
+    ∃ sched s', run ps s sched = some s' ∧ ∀ t, t < ps.length → finished ps s' t = true :=
+  can_finish_of_Inv ps hflat _ s (Inv_reachable ps hflat s hr) (Nat.le_refl _)
+
+/-- non-vacuity: same three flat threads; from the reachable state above an explicit finishing schedule -/
+example :
+    let ps : Progs := [[.acqR, .relR, .acqW, .relW], [.acqW, .relW], [.acqR, .relR]]
+    (∀ p ∈ ps, flat p = true) ∧ Reachable ps (step ps (step ps (init ps) 0) 1) ∧
+      (run ps (step ps (step ps (init ps) 0) 1) [0, 1, 1, 0, 0, 0, 2, 2]).isSome = true ∧
+      ((run ps (step ps (step ps (init ps) 0) 1) [0, 1, 1, 0, 0, 0, 2, 2]).map
+        (fun s' => (List.range ps.length).all (finished ps s'))) = some true :=
+  ⟨by decide, .step _ _ (.step _ _ .init (by decide) (by decide)) (by decide) (by decide),
+    by decide, by decide⟩
 
 /-- **A nested read acquisition deadlocks** against one writer: the execution
 `t0:acqR, t1:request-write, …` reaches a state where nobody can move. -/
 theorem nested_deadlocks :
     ∃ sched s, run [[.acqR, .acqR, .relR, .relR], [.acqW, .relW]] (init [[.acqR, .acqR, .relR, .relR], [.acqW, .relW]]) sched = some s ∧
-      deadlocked [[.acqR, .acqR, .relR, .relR], [.acqW, .relW]] s = true := by
-  sorry
+      deadlocked [[.acqR, .acqR, .relR, .relR], [.acqW, .relW]] s = true :=
+  ⟨[0, 1], ⟨[1, 0], [1, 0], none, [1]⟩, by decide, by decide⟩
 
 /-- states reached by `run` from the initial state are reachable -/
 theorem run_reachable (ps : Progs) (sched : List Nat) (s : State) (hs : ∀ t ∈ sched, t < ps.length)
     (h : run ps (init ps) sched = some s) : Reachable ps s := by
-  sorry
+  suffices H : ∀ s0, Reachable ps s0 → run ps s0 sched = some s → Reachable ps s from H _ .init h
+  clear h
+  induction sched with
+  | nil =>
+    intro s0 h0 hrun
+    simp [run] at hrun
+    exact hrun ▸ h0
+  | cons t ts ih =>
+    intro s0 h0 hrun
+    have hen := enabled_of_run_cons ps s0 s t ts hrun
+    simp [run, hen] at hrun
+    exact ih (fun u hu => hs u (List.mem_cons_of_mem _ hu)) _
+      (Reachable.step s0 t h0 (hs t (List.mem_cons_self ..)) hen) hrun
+
+/-- non-vacuity: a schedule of in-range thread ids that runs -/
+example :
+    let ps : Progs := [[.acqR, .relR, .acqW, .relW], [.acqW, .relW], [.acqR, .relR]]
+    (∀ t ∈ [2, 0, 1, 0, 2, 1], t < ps.length) ∧
+      run ps (init ps) [2, 0, 1, 0, 2, 1] = some ⟨[2, 1, 2], [0, 0, 0], some 1, []⟩ :=
+  ⟨by decide, by decide⟩
 
 /-- guards held by a thread after executing the event prefix `q` -/
 def holds (q : List Ev) : Int :=
@@ -52,11 +102,81 @@ def wellBracketed : List Ev → List Ev → Bool
 thread holds nothing; a flat operation therefore produces an all-free probe trace … -/
 theorem flat_probes_free (p : List Ev) (h : flat p = true) (k : Nat) (e : Ev) (hk : p[k]? = some e)
     (he : isAcq e = true) : holds (p.take k) = 0 := by
-  sorry
+  induction p using flat.induct generalizing k with
+  | case1 => simp at hk
+  | case2 rest ih =>
+    simp only [flat] at h
+    match k, hk with
+    | 0, _ => simp [holds]
+    | 1, hk =>
+      simp at hk
+      subst hk
+      simp [isAcq] at he
+    | k+2, hk =>
+      have := ih h k (by simpa using hk)
+      simp [holds] at this ⊢
+      omega
+  | case3 rest ih =>
+    simp only [flat] at h
+    match k, hk with
+    | 0, _ => simp [holds]
+    | 1, hk =>
+      simp at hk
+      subst hk
+      simp [isAcq] at he
+    | k+2, hk =>
+      have := ih h k (by simpa using hk)
+      simp [holds] at this ⊢
+      omega
+  | case4 p h1 h2 h3 =>
+    unfold flat at h
+    split at h <;> simp_all
+
+/-- non-vacuity: the second acquisition of a flat two-block program -/
+example :
+    let p : List Ev := [.acqR, .relR, .acqW, .relW]
+    flat p = true ∧ p[2]? = some .acqW ∧ isAcq .acqW = true ∧ holds (p.take 2) = 0 :=
+  ⟨by decide, by decide, by decide, by decide⟩
 
 /-- … and conversely an all-free probe trace of a well-bracketed operation means the operation is flat -/
 theorem probes_free_flat (p : List Ev) (hwb : wellBracketed p [] = true)
     (h : ∀ k e, p[k]? = some e → isAcq e = true → holds (p.take k) = 0) : flat p = true := by
-  sorry
+  induction p using flat.induct with
+  | case1 => rfl
+  | case2 rest ih =>
+    simp only [flat]
+    refine ih (by simpa [wellBracketed] using hwb) (fun k e hk he => ?_)
+    have := h (k + 2) e (by simpa using hk) he
+    simp [holds] at this ⊢
+    omega
+  | case3 rest ih =>
+    simp only [flat]
+    refine ih (by simpa [wellBracketed] using hwb) (fun k e hk he => ?_)
+    have := h (k + 2) e (by simpa using hk) he
+    simp [holds] at this ⊢
+    omega
+  | case4 p h1 h2 h3 =>
+    exfalso
+    rcases p with _ | ⟨e1, _ | ⟨e2, rest⟩⟩
+    · exact h1 rfl
+    · cases e1 <;> simp [wellBracketed] at hwb
+    · cases e1 <;> cases e2 <;>
+        first
+        | exact h2 _ rfl
+        | exact h3 _ rfl
+        | (simp [wellBracketed] at hwb; done)
+        | (have := h 1 _ rfl rfl; simp [holds] at this)
+
+/-- non-vacuity: a well-bracketed operation all of whose acquisitions find the lock free … -/
+example :
+    let p : List Ev := [.acqR, .relR, .acqW, .relW]
+    wellBracketed p [] = true ∧ (∀ k e, p[k]? = some e → isAcq e = true → holds (p.take k) = 0) :=
+  ⟨by decide, fun k e hk he => flat_probes_free _ (by decide) k e hk he⟩
+
+/-- … whereas a nested (well-bracketed, non-flat) operation has a non-free probe -/
+example :
+    let p : List Ev := [.acqR, .acqR, .relR, .relR]
+    wellBracketed p [] = true ∧ flat p = false ∧ p[1]? = some .acqR ∧ holds (p.take 1) = 1 :=
+  ⟨by decide, by decide, by decide, by decide⟩
 
 end Zarrs.C19
